@@ -132,6 +132,13 @@ func tryEvalCheck(r *rep.Run, kleene bool) {
 							skip = true
 							break
 						}
+						// available variables stay inside the typed fragment
+						// (and/or operands are boolean-typed or failing); the
+						// ill-typed value only occurs in completions
+						if avail[x] && withIll && v%rad[x] == rad[x]-1 {
+							skip = true
+							break
+						}
 						v /= rad[x]
 					}
 					if skip {
